@@ -15,7 +15,7 @@ def main():
     if not os.path.isdir(WT):
         subprocess.run("git -C /repo worktree add -q --detach %s HEAD" % WT, shell=True, check=True)
     out = {}
-    for pf in sorted(glob.glob(d + "/*.diff")):
+    for pf in sorted(glob.glob(os.path.abspath(d) + "/*.diff")):
         name = os.path.basename(pf)[:-5]
         subprocess.run("git -C %s checkout -- ." % WT, shell=True)
         r = subprocess.run("git -C %s apply %s" % (WT, pf), shell=True, capture_output=True, text=True)
